@@ -30,10 +30,11 @@ func (a *Anchors) labelObj(obj types.Object) string {
 			return "preconditions"
 		case a.is(obj, a.StatusOnError):
 			return "rollback"
-		case a.is(obj, a.Mkdir):
-			return "mkdir"
 		case a.is(obj, a.RunTask):
 			return "runtask"
+		case a.is(obj, a.Mkdir), isFunc(obj, "os", "", "MkdirAll"):
+			return "mkdir" // the task-directory helper, or the directory creation written in place
+
 		case a.is(obj, a.Dedup):
 			return "dedup"
 		case a.is(obj, a.Acquire):
